@@ -268,7 +268,7 @@ func fileEncs(target, tpl string, whole int, lite func(rel string) bool) {
 				}
 			}
 		}
-		if pos == nil || len(pos) > 0 {
+		if len(bs) <= whole || len(pos) > 0 {
 			prepEncs[target] = append(prepEncs[target], enc{Name: rel, B: bs, Pos: pos, Aux: tpl})
 		}
 	}
@@ -511,8 +511,11 @@ var pgAddr string
 // the session goroutine kills the process (detected by the parent as a crash of this input).
 func pgSessionInit() {
 	if pgAddr == "" {
-		srv := pgserver.New(pgserver.Host("127.0.0.1"), pgserver.Port(0), pgserver.Logger(quiet),
-			pgserver.DatabaseList(database.NewDatabaseList(database.NewDBManager(nil, 2, quiet))))
+		// "defaultdb" is registered but never opened: the exchange reaches the (pre-authentication) password message;
+		// a non-empty password makes the session dial immudbPort, where nothing listens (connection refused)
+		dbl := database.NewDatabaseList(database.NewDBManager(nil, 2, quiet))
+		dbl.Put("defaultdb", database.DefaultOptions())
+		srv := pgserver.New(pgserver.Host("127.0.0.1"), pgserver.Port(0), pgserver.ImmudbPort(1), pgserver.Logger(quiet), pgserver.DatabaseList(dbl))
 		must(srv.Initialize())
 		pgAddr = fmt.Sprintf("127.0.0.1:%d", srv.GetPort())
 		go srv.Serve()
@@ -542,6 +545,7 @@ func pgSessionEncs() {
 	addEnc("pgsql.session", "startup", startup)
 	addEnc("pgsql.session", "sslrequest+startup", cat(ssl, startup))
 	addEnc("pgsql.session", "startup+password", cat(startup, []byte{'p'}, be32(4+7), cstr("secret")))
+	addEnc("pgsql.session", "startup+empty-password", cat(startup, []byte{'p'}, be32(4+1), cstr("")))
 }
 
 // ---------- registration ----------
